@@ -112,7 +112,7 @@ PROPS = {
         "rules": [("CP", 4, has("decision_nnf::")), ("TS", 7, has("TS-BAL")), ("DP", 3, has("topdown")),
                   ("GL", 1, has("component-cache")), ("SP", 10, has("SP1")),
                   ("SH", 6, has("decision_nnf::")), ("RN", 7, has("RN4")),
-                  ("WP", 3, has("update_hash_and_sat_set")), ("PR", 1, has("SATSolver")),
+                  ("WP", 4, has("update_hash_and_sat_set")), ("PR", 1, has("SATSolver")),
                   ("TD", 4, None), ("VO", 1, vo_sel("decision_nnf", only_label_order=True)),
                   ("EC", 4, None)],
         "explanation": "Conditioning of a possibly complemented d-DNNF pointer is sign-coherent (CP on cond_helper: return "
@@ -212,7 +212,7 @@ PROPS = {
                        "literal use one side (WP); SATSolver::decide pushes exactly one state on non-UNSAT paths and none on "
                        "UNSAT, pop pops one, new leaves two (TS-STK) — the structural half of 'pop restores the previous "
                        "state'. Not decided: soundness and fixpoint of propagation in general, the satisfied flag, hash "
-                       "injectivity. Added: index spaces of the watch scheme - label / clause index / position in a watch list - are respected at all 32 uses (WS); the tautology filter ranges over all pairs because Literal's packed order is polarity-major (TF); clause-length cases of the constructor (EC); the PartialModel queries agree with the two-set definition (PM); watch tables keep their label indexing (LT). Added: the satisfied-clause scan of decide depends on the literal's status only (LC).",
+                       "injectivity. Added: index spaces of the watch scheme - label / clause index / position in a watch list - are respected at all 32 uses (WS); the tautology filter ranges over all pairs because Literal's packed order is polarity-major (TF); clause-length cases of the constructor (EC); the PartialModel queries agree with the two-set definition (PM); watch tables keep their label indexing (LT). Added: the satisfied-clause scan of decide depends on the literal's status only (LC); the residual-hash update refers to one base state throughout (WP3).",
     },
     "C12": {
         "level": "other",
